@@ -94,7 +94,8 @@ func runCont1(m *Model, r *RuleResult) {
 			nSucc++
 			v := ret.Results[0]
 			tested, degenerate := false, false
-			for _, d := range iterationControlDeps(ret.Block(), loops) {
+			// (the direct dependences too: in a `for { ... }` loop the head block itself ends with the containment test)
+			for _, d := range append(iterationControlDeps(ret.Block(), loops), controlDeps(ret.Block())...) {
 				if call, ok := d.If.Cond.(*ssa.Call); ok && d.Branch == 0 {
 					if c := call.Call.StaticCallee(); c != nil && isContain(c) && len(call.Call.Args) > 0 && call.Call.Args[0] == v {
 						tested = true
